@@ -9,7 +9,7 @@ from ..lang import ARITH_OPS, CMP_OPS
 PROPERTY = "C02"
 LEVEL = "exploration"
 TIMEOUT = 240
-BUDGET = {"quick": 150, "thorough": 1500}
+BUDGET = {"quick": 600, "thorough": 3600}
 RULE = ("Seeded stratified random stateless bundle programs (literals with constant / input / computed / nested "
         "members, each-arithmetic with constant and signal scalars, filters with copy and constant outputs, "
         "gating, any/all with constant and signal thresholds, selection, chains, and compositional expressions: anonymous "
